@@ -12,7 +12,11 @@
    canonical   token by token: operators in upper case, every id in the spelling of the table, "LicenseRef-" + the suffix as
                written, "+" kept; printed with single spaces and none inside parentheses.
 
-   The tables are parameters: lists of (key, official id); the specification uses only the official ids. *)
+   The tables are parameters: lists of (key, official id); the specification uses only the official ids.
+
+   Where the property text is silent the specification follows the code, and says so here: "LicenseRef-x+" is taken as well-formed
+   (SPDX proper has no "+" on a LicenseRef); the suffix of a LicenseRef may be empty ("LicenseRef-" alone; SPDX wants one character
+   at least); an id of the table that itself ends in "+" (the deprecated "GPL-2.0+" ...) may carry a further "+". *)
 From Coq Require Import List NArith Bool.
 Import ListNotations.
 Require Import VParse LicModel LicAuto.
